@@ -128,12 +128,16 @@ def run(ctx, prop="C08"):
     ctx.mc("FzfPipeline", "MC_Pipeline_quick.cfg" if ctx.quick else "MC_Pipeline.cfg", timeout=3000, workers=8 if ctx.quick else 12,
            heap=None if ctx.quick else "16g")
     ctx.mc("FzfPipeline", "MC_Pipeline_quick_reload.cfg", timeout=1700, workers=8)
+    # --tail: snapshots are windows, the chunk list is trimmed by snapshots (trimmed copies are new chunk objects)
+    ctx.mc("FzfPipeline", "MC_Pipeline_tail_quick.cfg" if (ctx.quick or prop != "C13") else "MC_Pipeline_tail.cfg", timeout=3400,
+           workers=8 if ctx.quick else 12, heap=None if ctx.quick else "16g")
     if not ctx.quick and prop == "C08":
         ctx.mc("FzfPipeline", "MC_Pipeline_deep.cfg", timeout=3000, workers=12, heap="16g")
-    # the named deviations must be reachable in the model (their counterexamples document findings F5, F17, F21)
+    # the named deviations must be reachable in the model (their counterexamples document findings F5, F17, F21; the last one shows
+    # that the minor-revision bump on a trimming snapshot is what keeps the merger cache sound under --tail)
     devs = {}
     for cfg, inv in (("MC_Pipeline_dev.cfg", "ConvergenceStrict"), ("MC_Pipeline_dev_stale.cfg", "NeverStale"),
-                     ("MC_Pipeline_dev_lost.cfg", "NeverLost")):
+                     ("MC_Pipeline_dev_lost.cfg", "NeverLost"), ("MC_Pipeline_dev_trim.cfg", "PublishedIsFilter")):
         r = ctx.tlc("FzfPipeline", cfg, workers=4, timeout=900, expect_ok=False, label="dev-" + inv)
         if r.code != 12 or not any(inv in e for e in r.errors):
             raise Infra("deviation config %s no longer yields its counterexample (exit %d)" % (cfg, r.code))
